@@ -393,7 +393,7 @@ def run(ctx):
                   sum(1 for m in r["records"] if m["role"] == "create" for c in m["calls"] if c["method"] == "measure"))
         ctx.case(("pair-creation", str(sorted(sc.items()))), nontrivial=True)
     need_k = ["pair_creation_receiver_full", "pair_creation_room_for_one", "pair_creation_register_for_one", "pair_creation_room_for_none",
-              "pair_creation_md_rotation", "pair_creation_ok", "pair_creation_creator_holds_other_qubits", "pair_creation_measure_directly"]
+              "pair_creation_not_adjacent", "pair_creation_md_rotation", "pair_creation_ok", "pair_creation_creator_holds_other_qubits", "pair_creation_measure_directly"]
     ctx.obligation("failing pair creations exercised: receiver full, room / register for one more qubit only, none, measure-directly; creator holding "
                    "other qubits; successful requests for contrast", all(ctx.coverage.get(k) for k in need_k),
                    "never hit: %r" % [k for k in need_k if not ctx.coverage.get(k)])
